@@ -64,7 +64,8 @@ CHECKS.update({
               "rename in/out/over, mkdir, rmdir, rm -r), through plain and symlinked watch paths, with an injected kevent failure, are replayed; at every quiescent observation the simulator's "
               "open-descriptor set is compared with the watch table, their number with the specification's watch set, WatchList with the user's paths; nothing may be open after Close. "
               "A bounded model of the backend's five tables (KqueueTables.tla) is model-checked first, and every behaviour of it up to 3 (thorough: 4, sampled 5) steps is generated by TLC, "
-              "replayed with the reader held back and released at the model's drains, and the observed table sizes are compared with the model's.",
+              "replayed with the reader held back and released at the model's drains, and the observed table sizes are compared with the model's. Concurrent programs (kqstress, -race) check that "
+              "no descriptor is left after Close under goroutine schedules the Go scheduler produces.",
               "Trusted: TLC, the simulator (harness/simkq/unix) as the kernel; its NOTE_* rules are FreeBSD's documented ones and bin/kqcalibrate reproduces all 40 applicable recorded freebsd/kqueue expectations of the repository's testdata with it. "
               "No real BSD kernel is observed. Pre-existing defects of the backend are listed in known-findings.txt.",
               "DESIGN.md 6 C17", engine="kq-trace"),
